@@ -349,6 +349,13 @@ func c09prop(ev *evid.Rec) func(rt *rapid.T) {
 					rt.Fatalf("download of the uploaded file carries the information fork of the earlier, deleted file (type %q comment %q)", p.Info.Type[:], p.Info.Comment)
 				}
 			}
+			if preserve && !previousLife && !(hlref.ShortInfoFork && len(comment) == 0) {
+				// the server keeps information forks: what the client sent as the file's type, creator, dates and comment is
+				// what a download says
+				if p.Info.Type != [4]byte{'T', 'E', 'X', 'T'} || p.Info.Creator != [4]byte{'t', 't', 'x', 't'} || p.Info.Create != hlsim.UploadCreateDate || p.Info.Modify != hlsim.UploadModifyDate || !bytes.Equal(p.Info.Comment, comment) {
+					rt.Fatalf("download of the uploaded file (the server keeps information forks): type %q creator %q created %x modified %x comment %q; uploaded: TEXT ttxt %x %x %q (cuts %v)", p.Info.Type[:], p.Info.Creator[:], p.Info.Create, p.Info.Modify, p.Info.Comment, hlsim.UploadCreateDate, hlsim.UploadModifyDate, comment, cutLog)
+				}
+			}
 			if preserve && forks == 3 && wholeStream {
 				// the completing attempt carried the whole resource fork: that, and nothing else, is the file's resource fork now
 				want := append(hlref.ForkHeader("MACR", len(rsrc)), rsrc...)
